@@ -1,0 +1,40 @@
+//go:build verif
+
+// Contracts and ghost/spec functions for package cmd, read by the /verif condition
+// generator (govc). Compiled only with -tags verif; adds no behaviour.
+package cmd
+
+// ---- C15: inspecting commands never write (call-graph frame obligations) -----------
+// Closures (the cobra Run/RunE functions) count towards the function that creates them.
+//@ directive[C15] no-effect cmd.createGenerateCommand fswrite selfupdate exec
+//@ directive[C15] no-effect cmd.createCompareCommand fswrite selfupdate exec
+//@ directive[C15] no-effect cmd.performCompare fswrite selfupdate exec
+//@ directive[C15] no-effect cmd.var:versionCmd fswrite selfupdate exec
+//@ directive[C15] no-effect cmd.createCompletionCommand fswrite selfupdate exec
+//@ directive[C15] no-effect cmd.parseRuleId fswrite selfupdate exec
+//@ directive[C15] no-effect cmd.findRootDirectory fswrite selfupdate exec
+// rewriting commands: every write primitive sits inside the one writer function whose
+// contract pins the path
+//@ directive[C15] only-writers cmd.createFormatCommand cmd.processFile
+//@ directive[C15] only-writers cmd.createUpdateCommand cmd.updateRegex
+//@ directive[C15] only-writers cmd.createRenumberTestsCommand util.TestRenumberer.processFile
+//@ directive[C15] only-writers cmd.createChoreUpdateCopyrightCommand chore.processFile
+
+// ---- C03 (3): no hidden inputs: no clock, randomness, process identity, environment,
+// goroutines or subprocesses below generate / update / compare / format
+//@ directive[C03] no-effect cmd.createGenerateCommand time rand pid env goroutine exec
+//@ directive[C03] no-effect cmd.createUpdateCommand time rand pid env goroutine exec
+//@ directive[C03] no-effect cmd.createCompareCommand time rand pid env goroutine exec
+//@ directive[C03] no-effect cmd.createFormatCommand time rand pid env goroutine exec
+// C03 (2): every range over a map is in a function that carries an order-independence
+// justification (contracts in the parser and operators packages)
+//@ directive[C03] census maprange parser.Parser.parseLine parser.expandDefinitions parser.buildIncludeExceptString parser.replaceSuffixes operators.Operator.complete
+//@ directive[C03] census goroutine
+
+// ---- C17: every scan loop is in a function whose contract carries the scanner protocol
+//@ directive[C17] census scanloop parser.Parser.Parse operators.Operator.assemble cmd.processFile util.TestRenumberer.processYaml chore.updateRules parser.replaceSuffixes parser.removeExclusions parser.buildinclusionLineMap
+
+// ---- C08: nothing left in package-level state by one file can influence the next
+//@ directive[C08] write-before-read cmd.performUpdate
+//@ directive[C08] write-before-read cmd.performCompare
+//@ directive[C08] write-before-read cmd.processAll
